@@ -2,6 +2,7 @@
 import io
 import os
 import random
+import re
 import tempfile
 from pathlib import Path
 
@@ -192,6 +193,30 @@ def run_shard(spec, tier, seed, budget_s):
                             if 'sql_renderer' in kw and (db.sql_renderer is not RecSQL or db.dbml_renderer is not RecDBML
                                                          or not db.sql.startswith('-- recorded') or not db.dbml.startswith('// recorded')):
                                 sh.violation('option', f'option-lost:renderers:{name}', f'{name}: renderer classes not in effect', case)
+            # ---- the file changes between two calls (same path, same size, same time stamp): the second call reads it again
+            m_ = None
+            for m_ in re.finditer(r'\d', text):
+                pass
+            if m_ is not None and not sh.out_of_time():
+                text2 = text[:m_.start()] + str((int(m_.group()) + 1) % 10) + text[m_.end():]
+                pth = os.path.join(tmpdir, f'rw{k}.dbml')
+                with open(pth, 'w', encoding='utf8', newline='') as f:
+                    f.write(text)
+                st = os.stat(pth)
+                path_routes = [('PyDBML(Path)', lambda: PyDBML(Path(pth))), ('parse_file(str)', lambda: PyDBML.parse_file(pth)),
+                               ('parse_file(Path)', lambda: PyDBML.parse_file(Path(pth))), ('PyDBML().parse_file(str)', lambda: PyDBML().parse_file(pth))]
+                first = [outcome(lambda **kw: th(), {})[0] for _, th in path_routes]
+                with open(pth, 'w', encoding='utf8', newline='') as f:
+                    f.write(text2)
+                os.utime(pth, ns=(st.st_atime_ns, st.st_mtime_ns))
+                want2, _ = outcome(lambda **kw: PyDBML.parse(text2), {})
+                for (name, th), g1 in zip(path_routes, first):
+                    got2, _ = outcome(lambda **kw: th(), {})
+                    sh.count('obs.rewritten_file_reads')
+                    if got2 != want2:
+                        sh.violation('route', f'stale-file-content:{name}', f'{name}: after the file was rewritten (same size and time stamp) the route ' +
+                                     ('still returns the old content' if got2 == g1 else 'returns neither the old nor the new content'),
+                                     {'kind': 'rewrite', 'text': text, 'text2': text2, 'route': name})
         # refused source types
         bp = os.path.join(tmpdir, 'bin.dbml')
         with open(bp, 'w') as f:
